@@ -139,6 +139,14 @@ CHECKS = {
         "with a brute-force evaluator, checked for the requested order, and compared between the back-ends.",
         "Sampled stores (<= 25 objects) with small value domains; JSON-serialisable messages only; order judged only when all keys are present.",
     ),
+    "C14": (
+        "model-based history testing of LDM subscriptions (hypothesis operation lists with scenario blocks on a virtual clock) against a reference subscription model",
+        "Histories of subscribe (valid and every invalid parameter class), unsubscribe, register/deregister, add, explicit and reactive attendance "
+        "and clock advances run on the real LDM; a reference model keyed by the returned subscription ids predicts at each attendance exactly "
+        "which callbacks fire, with which objects (brute-force filter evaluator) and in which order, and that nothing fires after "
+        "unsubscription / deregistration or outside an attendance.",
+        "Sampled histories (<= 80 steps, 3 consumers); no verdict for attendances before a subscription's first interval has elapsed; identical requests share an id.",
+    ),
 }
 
 NOT_APPLICABLE = {
